@@ -7,6 +7,8 @@ tree: `Gen.journalPairs` (encodeJournalName), `Gen.jobJournalRe`,
 -/
 import Martian.ForkName
 import Proofs.ForkName
+import Proofs.ForkNameInj
+import Proofs.ForkRoute
 import Gen.Facts
 
 namespace Props.C11
@@ -138,24 +140,43 @@ theorem fork_index_string_distinct (dim dim' i j : Nat)
 theorem chunk_names_distinct (n i j : Nat) (h : chunkName n i = chunkName n j) : i = j :=
   padded_inj (List.append_cancel_left h)
 
-/-- Nested map calls of any depth (`fork_<k1>/fork_<k2>/…`): the id string
-determines the whole key tuple, so distinct key tuples give distinct
-directories.  Holds for both variants of the `start+i` recursion.
+/-- **Fork names are injective in the fork-part tuple**, for every nesting
+of array and map parts: any depth, statically or run-time sized arrays of any
+length (flat indices, `_`-separated groups, zero padding at every width), map
+keys over all byte strings.  Two forks of one call (`sameShape`: the same
+kinds, lengths, key sets and static-ness position by position) whose indices /
+keys are in range and whose id strings are equal are the same fork.  Stated
+against the regenerated recursion target of `ForkId.forkId`. -/
+theorem forkName_injective (a b : List Part) (hs : sameShape a b = true)
+    (hva : a.all partValid = true) (hvb : b.all partValid = true)
+    (h : forkIdString Gen.forkIdReenters a = forkIdString Gen.forkIdReenters b) : a = b := by
+  rw [forkId_reenters_at_map_part] at h
+  exact forkIdString_inj a b hs hva hvb h
 
-PARTIAL: the full statement is "for two fork ids of the same part structure
-(any mix of array and map parts, static or run-time sized),
-`forkIdString a = forkIdString b → a = b`".  It is proved here for nests of map
-parts (and above for single parts and for flat indices); mixed array/map nests
-are covered by exhaustive enumeration on the real code only, and are false for
-the code as found (next theorem). -/
-theorem nested_fork_dirs_distinct_partial (re : Bool) (a b : List Part) (ka kb : List Bytes)
-    (ha : keysOf a = some ka) (hb : keysOf b = some kb) (hna : a ≠ []) (hnb : b ≠ [])
-    (h : forkIdString re a = forkIdString re b) : ka = kb := by
-  rw [forkIdString_maps re a ka ha hna, forkIdString_maps re b kb hb hnb] at h
-  exact mapsId_inj ka kb (Option.some.inj h)
+/-- … hence so are the fork directories `<node path>/<fork id>` … -/
+theorem forkDir_injective (nodePath : Bytes) (a b : List Part) (ia ib : Bytes)
+    (hs : sameShape a b = true) (hva : a.all partValid = true) (hvb : b.all partValid = true)
+    (ha : forkIdString Gen.forkIdReenters a = some ia) (hb : forkIdString Gen.forkIdReenters b = some ib)
+    (h : nodePath ++ cSlash :: ia = nodePath ++ cSlash :: ib) : a = b := by
+  have : ia = ib := by simpa using List.append_cancel_left h
+  exact forkName_injective a b hs hva hvb (by rw [ha, hb, this])
 
-example : keysOf [.key [0x61] [[0x61], [0x62]] true, .key [0x2F] [[0x2F]] false]
-    = some [[0x61], [0x2F]] := by decide
+/-- … and the fork parts of the journal names `<fqid>.<journalEnc id>` (the
+replacer pairs as regenerated). -/
+theorem forkJournalName_injective (a b : List Part) (ia ib : Bytes)
+    (hs : sameShape a b = true) (hva : a.all partValid = true) (hvb : b.all partValid = true)
+    (ha : forkIdString Gen.forkIdReenters a = some ia) (hb : forkIdString Gen.forkIdReenters b = some ib)
+    (h : journalEnc Gen.journalPairs ia = journalEnc Gen.journalPairs ib) : a = b := by
+  have := journal_name_injective ia ib h
+  exact forkName_injective a b hs hva hvb (by rw [ha, hb, this])
+
+-- non-vacuity: a run-time sized array over a map over a static array of 12, two forks of the same shape
+example :
+    let ks : List Bytes := [[0x61, 0x2F, 0x62], [0x2E]]
+    let a : List Part := [.arr 2 3 false, .key [0x2E] ks true, .arr 11 12 true]
+    let b : List Part := [.arr 1 3 false, .key [0x61, 0x2F, 0x62] ks true, .arr 0 12 true]
+    sameShape a b = true ∧ a.all partValid = true ∧ b.all partValid = true ∧
+    forkIdString true a ≠ forkIdString true b := by decide
 
 /-- Negative witness (the `forkId` recursion as found, `start+i+1`): under an
 array part, the map part is skipped, so the forks for keys `a` and `b` of the
@@ -276,6 +297,110 @@ theorem notification_reaches_owner (ts : List Bytes) (i : Nat) (t : Bytes)
     exact (journalEnc_clean journal_table_clean t).1 (hd ▸ hc)
   · apply getForkNew_routes _ i _ (nodup_map_journalEnc journal_table_percent_encoding ts hnd) _ hne'
     simp [hi]
+
+/-! ### Routing: `route (journalName n f j) = (n, f, j)` and nothing else routes -/
+
+/-- Round trip through the regenerated replacer pairs and the regex: in a
+pipestance whose nodes have pairwise distinct ids `top.<path>`, the journal
+name written for node `n` (path `p`), fork `f` (name `nm`) and job record
+(chunk digits, uniquifier, metadata file) is routed to exactly `(n, f, chunk,
+uniq, file)`. -/
+theorem route_roundtrip (top : Bytes) (nodes : List NodeM) (n f : Nat) (nd : NodeM) (p nm : Bytes)
+    (chunk uniq : Option Bytes) (file : Bytes)
+    (hnd : (nodes.map (·.fqid)).Nodup) (hn : nodes[n]? = some nd) (hfq : nd.fqid = top ++ cDot :: p)
+    (hp : p ≠ []) (hno : ∀ m ∈ nodes, m.fqid ≠ p)
+    (hfnd : nd.forks.Nodup) (hf : nd.forks[f]? = some nm)
+    (wf : WellFormed ⟨p, nm, chunk, uniq, file⟩) :
+    route top nodes (JName.render ⟨p, nm, chunk, uniq, file⟩) = some (n, f, chunk, uniq, file) :=
+  route_of_render top nodes n f nd p nm chunk uniq file hnd hn hfq hp hno hfnd hf wf
+
+/-- The fork names of the round trip can be the encoded fork ids: forks of one
+node with pairwise distinct id tails get pairwise distinct, non-empty, dot-free
+names, so the hypotheses of `route_roundtrip` on `nd.forks` hold. -/
+theorem route_fork_names_ok (ts : List Bytes) (hnd : ts.Nodup) :
+    (ts.map (journalEnc Gen.journalPairs)).Nodup ∧
+    ∀ nm ∈ ts.map (journalEnc Gen.journalPairs), ∀ c ∈ nm, c ≠ cDot := by
+  refine ⟨nodup_map_journalEnc journal_table_percent_encoding ts hnd, ?_⟩
+  intro nm hnm c hc hd
+  obtain ⟨t, _, rfl⟩ := List.mem_map.mp hnm
+  exact (journalEnc_clean journal_table_clean t).1 (hd ▸ hc)
+
+/-- Conversely, whatever is routed is the journal name of the job it is routed
+to: if `s` is routed to node `n`, fork `f` and a job record, then `s` is exactly
+the rendering of (that node's path, that fork's name, that record).  No
+prefix, suffix or numeric-position confusion is possible. -/
+theorem route_exact (top : Bytes) (nodes : List NodeM) (s : Bytes) (n f : Nat)
+    (chunk uniq : Option Bytes) (file : Bytes)
+    (h : route top nodes s = some (n, f, chunk, uniq, file)) :
+    ∃ nd p nm, nodes[n]? = some nd ∧ (nd.fqid = top ++ cDot :: p ∨ nd.fqid = p) ∧ p ≠ [] ∧
+      nd.forks[f]? = some nm ∧ s = JName.render ⟨p, nm, chunk, uniq, file⟩ :=
+  route_sound top nodes s n f chunk uniq file h
+
+/-- A name that no (node, fork, job record) of the pipestance produces routes
+nowhere. -/
+theorem route_nowhere (top : Bytes) (nodes : List NodeM) (s : Bytes)
+    (h : ∀ (n : Nat) (nd : NodeM) (f : Nat) (nm p : Bytes) (chunk uniq : Option Bytes) (file : Bytes), nodes[n]? = some nd → (nd.fqid = top ++ cDot :: p ∨ nd.fqid = p) →
+      nd.forks[f]? = some nm → s ≠ JName.render ⟨p, nm, chunk, uniq, file⟩) :
+    route top nodes s = none := by
+  cases hr : route top nodes s with
+  | none => rfl
+  | some r =>
+    obtain ⟨n, f, chunk, uniq, file⟩ := r
+    obtain ⟨nd, p, nm, hn, hfq, _, hf, hs⟩ := route_sound top nodes s n f chunk uniq file hr
+    exact absurd hs (h n nd f nm p chunk uniq file hn hfq hf)
+
+-- ID.ps with nodes TOP.A (forks 0, 1) and TOP.SUBTOP.A (fork 0): TOP.A.fork1.chnk0.complete goes to (node 1, fork 1);
+-- the suffix-cut OP.A.fork1.chnk0.complete and the padded TOP.A.fork01.chnk0.complete route nowhere
+example :
+    let top : Bytes := [0x49, 0x44, 0x2E, 0x70, 0x73]
+    let a : Bytes := [0x54, 0x4F, 0x50, 0x2E, 0x41]
+    let b : Bytes := [0x54, 0x4F, 0x50, 0x2E, 0x53, 0x55, 0x42, 0x54, 0x4F, 0x50, 0x2E, 0x41]
+    let nodes : List NodeM := [⟨top ++ cDot :: b, [[0x30]]⟩, ⟨top ++ cDot :: a, [[0x30], [0x31]]⟩]
+    let file : Bytes := [0x63, 0x6F, 0x6D, 0x70, 0x6C, 0x65, 0x74, 0x65]
+    (route top nodes (JName.render ⟨a, [0x31], some [0x30], none, file⟩)).map (fun r => (r.1, r.2.1)) = some (1, 1) ∧
+    route top nodes (JName.render ⟨a.drop 1, [0x31], some [0x30], none, file⟩) = none ∧
+    route top nodes (JName.render ⟨a, [0x30, 0x31], some [0x30], none, file⟩) = none := by decide
+
+/-! ### Attempt identity -/
+
+/-- A job is (re)started any number of times; attempt `k` is given the
+uniquifier `draw k`, and every notification written by a process of attempt `k`
+carries it.  ASSUMPTION (freshness): `draw` is injective — no two attempts of
+one job get the same uniquifier.  Then, for every history of resets and
+notifications (stragglers of older attempts included, in any order), every
+notification in the metadata cache is credited to the current attempt and was
+written by that attempt. -/
+theorem attempt_exact {U : Type} [DecidableEq U] (draw : Nat → U)
+    (fresh : ∀ a b, draw a = draw b → a = b) (evs : List JobEv) :
+    ∀ q ∈ (jobRun draw ⟨0, draw 0, []⟩ evs).recorded,
+      q.1 = (jobRun draw ⟨0, draw 0, []⟩ evs).attempt ∧ JobEv.notify q.1 q.2 ∈ evs := by
+  intro q hq
+  have := jobRun_exact draw fresh evs ⟨0, draw 0, []⟩ rfl (by simp) q hq
+  refine ⟨this.1, ?_⟩
+  rcases this.2 with h | h
+  · exact h
+  · simp at h
+
+/-- Freshness as the code provides it within one process: the time part of the
+uniquifier of a retry is `nextTime old now` (`nextUniquifier`), strictly above
+the previous attempt's whatever the clock reads — also within the same second
+— so the sequence is injective and `attempt_exact` applies.  (Across processes
+freshness rests on the process id + wall clock; the 24-bit time field wraps
+after ~194 days.) -/
+theorem attempt_exact_same_process (now : Nat → Nat) (evs : List JobEv) :
+    ∀ q ∈ (jobRun (attemptTime now) ⟨0, attemptTime now 0, []⟩ evs).recorded,
+      q.1 = (jobRun (attemptTime now) ⟨0, attemptTime now 0, []⟩ evs).attempt ∧ JobEv.notify q.1 q.2 ∈ evs :=
+  attempt_exact (attemptTime now) (attemptTime_inj now) evs
+
+-- the clock stands still for three attempts: the uniquifier times still differ
+example : (attemptTime (fun _ => 7) 0, attemptTime (fun _ => 7) 1, attemptTime (fun _ => 7) 2) = (7, 8, 9) := by decide
+
+/-- Negative witness (uniquifier by clock second alone, or kept across the
+reset): when attempts 0 and 1 get the same uniquifier, a straggler of attempt 0
+reporting after the reset is credited to attempt 1. -/
+theorem stale_attempt_credited_without_freshness :
+    let evs := [JobEv.reset, JobEv.notify 0 [0x63]]
+    (1, [0x63]) ∈ (jobRun (fun _ : Nat => (7 : Nat)) ⟨0, 7, []⟩ evs).recorded := by decide
 
 /-- `Metadata.cache`: a notification is recorded iff it carries the current
 attempt's uniquifier (a stale attempt's notification is ignored). -/
